@@ -32,15 +32,16 @@ Theorem C10_partial_bag : forall alpha s o, snd (bstep alpha s o) <> BOk -> fst 
 Proof. intros alpha s [a|]; simpl; [|intros H; exfalso; apply H; auto]. destruct (mem_pos a alpha); simpl; auto. intros H; exfalso; apply H; auto. Qed.
 Print Assumptions C10_partial_bag.
 
-(* ---- the element-level half: order of checks and stores in XMLElement.add_child / remove / value_ setter, read from the source ---- *)
-Theorem C10_element_checks_first : tr_element_ok = true /\ checks_first elt_add_child = true /\ checks_first elt_remove = true /\ checks_first elt_value_set = true.
+(* ---- the element-level half: order of checks and stores in XMLElement.add_child / remove / replace_child / value_ setter, read from the source ---- *)
+Theorem C10_element_checks_first : tr_element_ok = true /\ checks_first elt_add_child = true /\ checks_first elt_remove = true /\ checks_first elt_value_set = true
+  /\ checks_first elt_replace_child = true.
 Proof. repeat split; reflexivity. Qed.
 (* hence a call of one of the three that raises - at whatever check, for whatever reason - has stored nothing in the element *)
-Theorem C10_element_atomic : forall effs, In effs [elt_add_child; elt_remove; elt_value_set] ->
+Theorem C10_element_atomic : forall effs, In effs [elt_add_child; elt_remove; elt_value_set; elt_replace_child] ->
   forall fails log, fst (eexec effs fails 0 log) = ERaised -> snd (eexec effs fails 0 log) = log.
 Proof.
-  intros effs I fails log. apply checks_first_atomic. destruct C10_element_checks_first as (_ & A & B & C).
-  destruct I as [<-|[<-|[<-|[]]]]; assumption.
+  intros effs I fails log. apply checks_first_atomic. destruct C10_element_checks_first as (_ & A & B & C & D).
+  destruct I as [<-|[<-|[<-|[<-|[]]]]]; assumption.
 Qed.
 Print Assumptions C10_element_atomic.
 Example C10_element_nonvacuous : (Nat.leb 2 (length elt_add_child) && Nat.leb 3 (length elt_remove) && Nat.leb 2 (length elt_value_set))%bool = true
